@@ -294,7 +294,12 @@ func checkC14(c C14Case, r *Rec) *Violation {
 		}
 		// a leading directive is honoured: it gives the program of the subset it names
 		if i == 0 && c.DirMask >= 0 {
-			src := directive(c.DirMask, c.DirVar) + l
+			// (white space in front of the directive is white space between "nothing" and the first comment)
+			lead := []string{"", "", " ", "\t\n", "\f", "\v", "\u00a0", "\u0085", "\u2003 ", "\u2028", "\u3000", "\r\n  ", "\u2029\u1680", "\n\n"}[hash64(l)%14]
+			src := lead + directive(c.DirMask, c.DirVar) + l
+			if lead != "" {
+				r.Class("white-space-before-the-leading-directive")
+			}
 			_, dd, td, od := c14Compile(&c, src, c.Mask)
 			_, dw, tw, ow := c14Compile(&c, c.Canon, c.DirMask)
 			if od.Panic != nil || od.Err != nil || ow.Err != nil || dd != dw || td != tw {
@@ -330,7 +335,7 @@ func checkC14(c C14Case, r *Rec) *Violation {
 
 var propC14 = Prop[C14Case]{
 	ID:    "C14",
-	Rule:  "(a) typed random programs (prefix and infix) with layout-sensitive string literals, rendered canonically and re-laid-out three times (one with minimal spacing): between any two tokens nothing where the token rules allow it, any of 22 Unicode white-space forms (every rune class unicode.IsSpace knows), line breaks, or ;-comments containing parentheses, quotes, token look-alikes, directive look-alikes and every white-space character other than the line feed (U+2028, U+2029, U+0085, CR, VT, FF ...) (proper ;;;; lines only after the first token), optional trailing comment; (b) a valid directive for a drawn subset put before the first token; (c) token soups with string literals and comments that mostly do not compile. Oracles: every re-layout compiles to the same Dump/DumpTable and the same outcomes on 2 bindings; the directive-prefixed text equals the program of the named subset; for every input lexAll(IndentByParentheses^k(s)), k=1..3, equals lexAll(s) under the independent lexer (tokens and comments in order, comments modulo trailing white space, unterminated string = one pseudo-token) and the formatted text compiles to the same program (or fails likewise). Non-trivial = the re-layout contains a comment or a non-ASCII space, or a string literal with a layout-sensitive character; distinct by text",
+	Rule:  "(a) typed random programs (prefix and infix) with layout-sensitive string literals, rendered canonically and re-laid-out three times (one with minimal spacing): between any two tokens nothing where the token rules allow it, any of 22 Unicode white-space forms (every rune class unicode.IsSpace knows), line breaks, or ;-comments containing parentheses, quotes, token look-alikes, directive look-alikes and every white-space character other than the line feed (U+2028, U+2029, U+0085, CR, VT, FF ...) (proper ;;;; lines only after the first token), optional trailing comment; (b) a valid directive for a drawn subset put before the first token, with nothing or one of a dozen white-space forms in front of it; (c) token soups with string literals and comments that mostly do not compile. Oracles: every re-layout compiles to the same Dump/DumpTable and the same outcomes on 2 bindings; the directive-prefixed text equals the program of the named subset; for every input lexAll(IndentByParentheses^k(s)), k=1..3, equals lexAll(s) under the independent lexer (tokens and comments in order, comments modulo trailing white space, unterminated string = one pseudo-token) and the formatted text compiles to the same program (or fails likewise). Non-trivial = the re-layout contains a comment or a non-ASCII space, or a string literal with a layout-sensitive character; distinct by text",
 	Gen:   genC14,
 	Check: checkC14,
 }
